@@ -2,6 +2,7 @@
 from .. import grids, algorun
 from ..framework import Model
 from . import algo_common as ac
+from . import extras_common
 
 PID = "C03"
 RULE = ("case = one run of one algorithm configuration (25 configurations incl. starters, auxiliaries, solver back-ends, "
@@ -21,6 +22,10 @@ SCHEMES = [ac.P_UNI5, ac.P_IND1, ac.P_PSE5, ac.P_UNI1, ac.P_EXT]
 
 def _nt(rec):
     return rec["out"] == "consensus" and ac.n_elems(rec) >= 2
+
+
+def models(tier):
+    return extras_common.bench_models(tier)
 
 
 def stages(tier, rng, only=None):
@@ -92,4 +97,5 @@ def stages(tier, rng, only=None):
         out.append(ac.stage("grid4x2solvers", PID, lambda: ac.cases(grids.datasets(4, 2), list(COSTLY), SCHEMES,
                                                                     flags=(1,), namings=ac.NAMINGS3,
                                                                     every={k: 25 for k in COSTLY}), _nt))
+    out += extras_common.c03_stages(tier, rng)      # specified behaviour outside the listed properties (drift only)
     return [s for s in out if not only or s.name == only]
